@@ -649,6 +649,7 @@ def run(ck):
     ck.log("requests: %d integrate + %d helper; tree matches model variant %s with %d differing answers" %
            (len(reqs), len(hreqs), variant, ndiff))
     reported = set()
+    corr = []
     classes = set()
     hist = collections.Counter()
     kinds = collections.Counter()
@@ -679,10 +680,7 @@ def run(ck):
                     "how_to_replay": "echo '<request>' | work/C39/c39h   (harness/C39/harness.cxx, built from the current tree)"},
                    True)
         elif a_raw != m_raw:
-            report("corr:integrate:" + (a["msg"] if a["ok"] else "unparsed"),
-                   "correspondence Model.lean vs %s broken (C39 predicate still satisfied by the implementation)" % SITE,
-                   {"request": line(sc), "script": sc, "implementation": a_raw, "model_variant": "%s/%s" % variant,
-                    "model": m_raw}, False)
+            corr.append({"request": line(sc), "implementation": a_raw, "model": m_raw})
     for j, h in enumerate(hreqs):
         i = len(reqs) + j
         a_raw = impl[i] if i < len(impl) else "missing"
@@ -692,8 +690,11 @@ def run(ck):
             failing += 1
             report(bad[0], "%s: %s" % (SITE, bad[1]), {"request": h, "implementation": a_raw, "model": m_raw}, True)
         elif a_raw != m_raw:
-            report("corr:" + h.split()[0], "correspondence Model.lean vs %s broken on a decoding helper" % SITE,
-                   {"request": h, "implementation": a_raw, "model": m_raw}, False)
+            corr.append({"request": h, "implementation": a_raw, "model": m_raw})
+    if corr:
+        # one line for the broken tie, whatever the number of differing answers
+        report("corr:integrate", "correspondence Model.lean (variant %s/%s) vs %s broken on %d answers on which the C39 predicate is still satisfied"
+               % (variant[0], variant[1], SITE, len(corr)), {"differing_answers": len(corr), "examples": corr[:5]}, False)
     e2e_n, e2e_fail = 0, 0
     if not ck.quick:
         e2e = run_e2e(ck, rng)
